@@ -14,6 +14,8 @@
 -/
 import Lcapy.Proofs.Phasor
 import Lcapy.Props.C01
+import Lcapy.Props.C14
+import Mathlib.Tactic.Linarith
 namespace Lcapy.C14
 open Lcapy.MNA Lcapy.TDS Lcapy.Cx Ix
 variable {K : Type} [Field K]
@@ -89,6 +91,16 @@ theorem mna_phasor_is_steady_state (w : R) (tcs : List (SCpt R (Sinus R))) (X : 
     Solves .lap (jw w) (tcs.map phasorCpt) X ↔ LawsTD (sinusOps w) tcs (fun i => toTime (X i)) := by
   rw [C01.mna_iff_laws .lap (jw w) _ X hwf]
   exact phasor_solution_is_steady_state w tcs X
+
+/-- **phasor_is_transfer_at_jw**: `phasor_is_transfer_times_source` at the point s = jω of the complex numbers over an
+    ordered field: the output phasor is H(jω)·P, H(jω) being what the transfer experiment measures at s = jω. -/
+theorem phasor_is_transfer_at_jw (w : R) (cs : List (Cpt (Cx R))) (p1 m1 p2 m2 b : Nat) (H P : Cx R) (hP : P ≠ 0)
+    (hwf : C01.WF (transferExp cs p1 m1 p2 m2 b).ckt)
+    (hH : C04.Measures .lap (jw w) (transferExp cs p1 m1 p2 m2 b) H)
+    (z : Ix → Cx R)
+    (hz : Laws .lap (jw w) ((transferExp cs p1 m1 p2 m2 b).ckt.map (Cpt.mapSrc (fun v => P * v))) z) :
+    vd z p2 m2 = H * P :=
+  phasor_is_transfer_times_source (jw w) cs p1 m1 p2 m2 b H P hP hwf hH z hz
 
 /-- j·ω with j² = −1: the `mna_iff_laws_ac` of C01 instantiated in `Cx R` -/
 theorem jw_is_j_times_w (w : R) : jw w = jw 1 * ofReal w ∧ (jw (1 : R)) * jw 1 = -1 := ⟨jw_eq w, jw_one_sq⟩
@@ -219,5 +231,32 @@ example : LawsTD (sinusOps 2) exRC exRCsol := by
     simp only [exRC, List.mem_cons, List.mem_nil_iff, or_false] at hc
     rcases hc with rfl | rfl | rfl <;>
       simp [lawsS] at hp <;> (try subst hp) <;> simp [vdS, voltS, exRCsol, sinusOps]
+
+example : C01.WF (exRC.map phasorCpt) := by simp [C01.WF, exRC, phasorCpt, embed, owned]
+
+/-- non-vacuity of `phasor_is_transfer_times_source`: the divider `R1 1 2 1; R2 2 0 2` has H = 2/3 from (1, 0) to (2, 0) -/
+def exDiv : List (Cpt ℚ) := [.R 1 2 1, .R 2 0 2]
+
+example : C01.WF (transferExp exDiv 1 0 2 0 0).ckt := by
+  simp [C01.WF, transferExp, vProbe, killAll, exDiv, Cpt.isVAcross, Cpt.mapSrc, owned]
+
+example (s : ℚ) : C04.Measures .lap s (transferExp exDiv 1 0 2 0 0) (2 / 3) := by
+  constructor
+  · refine ⟨fun i => match i with | node 1 => 1 | node 2 => 2/3 | br 0 => -1/3 | _ => 0, ?_, ?_⟩
+    · intro k hk
+      match k with
+      | 0 => exact absurd rfl hk
+      | 1 => norm_num [transferExp, vProbe, killAll, exDiv, Cpt.isVAcross, Cpt.mapSrc, outflow, twoTerm, lsum, vd, volt]
+      | 2 => norm_num [transferExp, vProbe, killAll, exDiv, Cpt.isVAcross, Cpt.mapSrc, outflow, twoTerm, lsum, vd, volt]
+      | (k + 3) => simp [transferExp, vProbe, killAll, exDiv, Cpt.isVAcross, Cpt.mapSrc, outflow, twoTerm, lsum]
+    · intro c hc p hp
+      simp [transferExp, vProbe, killAll, exDiv, Cpt.isVAcross, Cpt.mapSrc] at hc
+      rcases hc with rfl | rfl | rfl <;> simp [laws] at hp <;> (try subst hp) <;> norm_num [vd, volt]
+  · intro x hx
+    have k2 := hx.1 2 (by decide)
+    have l1 := hx.2 (.V 1 0 0 1) (by simp [transferExp, vProbe]) (0, vd x 1 0 - 1) (by simp [laws])
+    simp [transferExp, vProbe, killAll, exDiv, Cpt.isVAcross, Cpt.mapSrc, outflow, twoTerm, lsum, vd, volt] at k2 l1
+    simp only [transferExp, Obs.read, vd, volt]
+    linarith
 
 end Lcapy.C14
